@@ -94,6 +94,14 @@ Theorem polygon_cyclic_shift_invariant : forall a t p, crossing_odd (t ++ [a]) p
 Proof. exact Lemmas.crossing_odd_cyclic. Qed.
 Print Assumptions polygon_cyclic_shift_invariant.
 
+(* rect_polygon_agree (unrotated case): the polygon returned by to_polygon(), tested with the even-odd rule, selects the same
+   points as the rectangle off its edge lines (rotated rectangles: checked by the harness through the to_polygon operation) *)
+Theorem rect_polygon_agree_axis : forall x0 x1 y0 y1 c s p, x0 < x1 -> y0 < y1 ->
+  ~ fst p == x0 -> ~ fst p == x1 -> ~ snd p == y0 -> ~ snd p == y1 ->
+  poly_contains (rect_to_polygon x0 x1 y0 y1 B0 c s) p = rect_contains x0 x1 y0 y1 B0 c s p.
+Proof. exact Lemmas.rect_polygon_agree_axis. Qed.
+Print Assumptions rect_polygon_agree_axis.
+
 (* the model's In / Out verdicts (the only ones compared with the implementation) are sound for the geometric definitions *)
 Theorem rect_verdict_sound : forall x0 x1 y0 y1 eps b c s p, 0 <= eps -> c * c + s * s == 1 -> branch_ok b c s ->
   (classify eps (Rect x0 x1 y0 y1 b c s) p = VIn -> rect_geom x0 x1 y0 y1 c s p) /\
